@@ -371,6 +371,67 @@ func c13nil(c *Ctx, a *procAnchors, fns []*ssa.Function) {
 		})
 	}
 	R.Floor("C13.nil", n, 15)
+	// results of failed calls: a pointer returned together with an error may only be dereferenced on paths
+	// where that error was tested nil (or the pointer itself non-nil)
+	nres := 0
+	for _, f := range fns {
+		if f.Pkg.Pkg.Path() != pkgProcessor {
+			continue
+		}
+		eachInstr(f, func(i ssa.Instruction) {
+			var base ssa.Value
+			switch x := i.(type) {
+			case *ssa.FieldAddr:
+				base = x.X
+			case *ssa.Call:
+				if cal := x.Call.StaticCallee(); cal != nil && cal.Signature.Recv() != nil && len(x.Call.Args) > 0 {
+					if _, isPtr := cal.Signature.Recv().Type().(*types.Pointer); isPtr {
+						base = x.Call.Args[0]
+					}
+				}
+			}
+			if base == nil {
+				return
+			}
+			for _, leaf := range phiLeaves(base) {
+				ex, ok := leaf.(*ssa.Extract)
+				if !ok || ex.Index != 0 {
+					continue
+				}
+				cl, ok := ex.Tuple.(*ssa.Call)
+				if !ok {
+					continue
+				}
+				res := cl.Call.Signature().Results()
+				if res.Len() < 2 || types.TypeString(res.At(res.Len()-1).Type(), nil) != "error" {
+					continue
+				}
+				if _, isPtr := ex.Type().Underlying().(*types.Pointer); !isPtr {
+					continue
+				}
+				nres++
+				fs := facts.AtRefined(i, nil)
+				ok2 := false
+				for _, ft := range fs {
+					x, op, y, okc := cmpOf(ft)
+					if !okc {
+						continue
+					}
+					for _, pr := range [][2]ssa.Value{{x, y}, {y, x}} {
+						if e2, isEx := pr[0].(*ssa.Extract); isEx && e2.Tuple == ex.Tuple && e2.Index == res.Len()-1 && isNilConst(pr[1]) && op == token.EQL {
+							ok2 = true
+						}
+						if pr[0] == base && isNilConst(pr[1]) && op == token.NEQ {
+							ok2 = true
+						}
+					}
+				}
+				R.Check("C13.nil", R.Key("C13.nil", shortFn(f), "deref-result:"+facts.CalleeName(&cl.Call)), c.rel(p.Pos(instrPos(i))), "the pointer result of "+facts.CalleeName(&cl.Call)+" is dereferenced only where its error was tested nil", ok2,
+					"dereference of "+facts.Term(base)+" is reachable on a path where the call's error is not known to be nil (a failed call returns a nil pointer)", facts.Atoms(fs)...)
+			}
+		})
+	}
+	R.Floor("C13.nil.results", nres, 3)
 	// guardian sets sent on setC are non-nil literals; the channel is never closed
 	gsT := must(p.Named(pkgCommon, "GuardianSet"), "common.GuardianSet")
 	nsend := 0
